@@ -150,6 +150,9 @@ Definition sv_cm_n_current_slices (rlen : pyv) (n_pairs : pyv) : res pyv :=
 Definition sv_cm_break (F : fops) (n_current_slices n_pairs n_matches : ft F) : bool :=
 (f_gt F (f_mul F n_current_slices (f_log F (f_div F n_current_slices (f_max F n_pairs (f_of_Z F (1)))))) (f_add F n_matches n_pairs)).
 
+(* validation steps of sparse/numba_backend/_common.py:moveaxis in source order; the function ends in a.transpose(order) *)
+Definition site_moveaxis_steps : list mv_step := [MvNormSrc; MvNormDst; MvRepeatDst; MvLen].
+
 (* fragment sv_dcn_outer_test from sparse/numba_backend/_common.py:_dot_coo_ndarray selector=None srchash=638841bb10b30445 *)
 Definition sv_dcn_outer_test (didx1 : pyv) (n : pyv) (ncols : pyv) : res pyv :=
 (t2_ <- (t3_ <- Ok n ;; py_lt didx1 t3_) ;; if cond t2_ then (t1_ <- Ok ncols ;; py_gt t1_ (VInt (0))) else Ok t2_).
